@@ -69,7 +69,11 @@ DefaultsInEffect(eff) ==
 \* isPkg: the string names a Go package of the world, ifaces: the interfaces it declares.  Judged only
 \* for the first run after init (a second run meets the mock file of the first one; what happens then is
 \* force-file-write's business, not init's).
-RunExpect(by, isPkg, ifaces, alreadyMocked) ==
-  IF by = None \/ ~isPkg \/ alreadyMocked THEN [judged |-> FALSE, ok |-> FALSE, mocked |-> {}]
-  ELSE [judged |-> TRUE, ok |-> TRUE, mocked |-> ifaces]
+\* ifaces: the interfaces that must be mocked (declared with an interface literal whose type set is a method
+\* set: plain, empty, generic, embedding-only, methods + embedding); may: interfaces the statement leaves open
+\* (aliases, defined types over a named interface, constraint interfaces).  Nothing else may be mocked.
+RunExpect(by, isPkg, ifaces, may, alreadyMocked) ==
+  IF by = None \/ ~isPkg \/ alreadyMocked THEN [judged |-> FALSE, ok |-> FALSE, mocked |-> {}, may |-> {}]
+  ELSE [judged |-> TRUE, ok |-> TRUE, mocked |-> ifaces, may |-> may]
+MockedOK(e, got) == e.mocked \subseteq got /\ got \subseteq e.mocked \cup e.may
 =============================================================================
